@@ -1,0 +1,118 @@
+//go:build verif
+
+// Contracts for the deductive checker in /verif (read only with -tags verif).
+
+package drbg
+
+// ---- the reseed gate (C17): a generator whose counter has passed its interval refuses to generate,
+// and a refused (or otherwise failing) Generate leaves the generator state and the output buffer as
+// they were; a successful Generate advances the counter by exactly one, a successful Reseed sets it
+// to one. (time.Since is arbitrary here: in GM mode the gate may also close earlier.)
+//@ func (*BaseDrbg).NeedReseed property C17
+//@   ensures hd.reseedCounter > hd.reseedIntervalInCounter ==> result
+//@   ensures !hd.gm ==> (result <==> hd.reseedCounter > hd.reseedIntervalInCounter)
+//@   modifies nothing
+
+//@ func (*HmacDrbg).update trusted
+//@   modifies hd.key, hd.v
+
+//@ func (*HmacDrbg).Generate property C17
+//@   requires hd.hashSize > 0 && hd.newHash != nil && hd.reseedIntervalInCounter < 18446744073709551615
+//@   let S := state()
+//@   ensures old(hd.reseedCounter > hd.reseedIntervalInCounter) ==> err == ErrReseedRequired
+//@   ensures err != nil ==> unchanged(S, *hd) && unchanged(S, output)
+//@   ensures err == nil ==> hd.reseedCounter == old(hd.reseedCounter) + 1 && old(hd.reseedCounter) <= hd.reseedIntervalInCounter
+//@   loop 1 invariant hd.reseedCounter == old(hd.reseedCounter) && hd.hashSize == old(hd.hashSize) && hd.hashSize > 0 && hd.reseedIntervalInCounter == old(hd.reseedIntervalInCounter) && (requestedBytes <= 0 || len(output) == requestedBytes)
+//@   loop 1 decreases requestedBytes
+//@   heapnonnil
+//@   modifies everything
+
+// helpers of the hash generator: V := (V + x) mod 2^seedlen in place (assumed)
+//@ func (*HashDrbg).addW trusted
+//@   modifies hd.v[0..len(hd.v)]
+//@ func (*HashDrbg).addH trusted
+//@   modifies hd.v[0..len(hd.v)]
+//@ func (*HashDrbg).addC trusted
+//@   modifies hd.v[0..len(hd.v)]
+//@ func (*HashDrbg).addReseedCounter trusted
+//@   modifies hd.v[0..len(hd.v)]
+//@ func addOne trusted
+//@   modifies data[0..len(data)]
+
+//@ func (*HashDrbg).Generate property C17
+//@   config hs in 20,32,48,64
+//@   requires HFSIZE() == hs && hd.hashSize == hs && hd.newHash != nil && hd.reseedIntervalInCounter < 18446744073709551615
+//@   requires hd.seedLength == len(hd.v) && !sameobj(b, hd.v)
+//@   fnspec newHash: std:hashCreator
+//@   let S := state()
+//@   ensures old(hd.reseedCounter > hd.reseedIntervalInCounter) ==> err == ErrReseedRequired
+//@   ensures err != nil ==> unchanged(S, *hd) && unchanged(S, b) && unchanged(S, hd.v)
+//@   ensures err == nil ==> hd.reseedCounter == old(hd.reseedCounter) + 1 && old(hd.reseedCounter) <= hd.reseedIntervalInCounter
+//@   loop 1 invariant 0 <= i && i < limit && m == len(b) && limit == (m + hs - 1) / hs && len(data) == hd.seedLength
+//@   loop 1 invariant hd.reseedCounter == old(hd.reseedCounter) && hd.reseedIntervalInCounter == old(hd.reseedIntervalInCounter)
+//@   loop 1 decreases limit - i
+//@   heapnonnil
+//@   modifies everything
+
+//@ func (*CtrDrbg).derive trusted
+//@   ensures len(result) == returnBytes
+//@   modifies nothing
+//@ func (*CtrDrbg).update trusted
+//@   modifies cd.v[0..len(cd.v)], cd.key[0..len(cd.key)]
+//@ func (*CtrDrbg).newBlockCipher trusted
+//@   ensures result != nil && BS(id(result)) == len(hd.v)
+//@   modifies nothing
+
+//@ func (*CtrDrbg).Generate property C17
+//@   config ol in 8,16
+//@   requires len(hd.v) == ol && hd.reseedIntervalInCounter < 18446744073709551615 && !sameobj(out, hd.v)
+//@   let S := state()
+//@   let OL := len(hd.v)
+//@   ensures old(hd.reseedCounter > hd.reseedIntervalInCounter) ==> err == ErrReseedRequired
+//@   ensures err != nil ==> unchanged(S, *hd) && unchanged(S, out) && unchanged(S, hd.v) && unchanged(S, hd.key)
+//@   ensures err == nil ==> hd.reseedCounter == old(hd.reseedCounter) + 1 && old(hd.reseedCounter) <= hd.reseedIntervalInCounter
+//@   loop 1 invariant 0 <= i && i < limit && m == len(out) && limit == (m + ol - 1) / ol && outlen == ol && len(hd.v) == ol && len(temp) == ol && objof(temp) < 0 && !sameobj(temp, hd.v)
+//@   loop 1 invariant hd.reseedCounter == old(hd.reseedCounter) && hd.reseedIntervalInCounter == old(hd.reseedIntervalInCounter)
+//@   loop 1 decreases limit - i
+//@   heapnonnil
+//@   modifies everything
+
+//@ func (*HmacDrbg).Reseed property C17
+//@   let S := state()
+//@   ensures err == nil ==> hd.reseedCounter == 1
+//@   ensures err != nil ==> unchanged(S, *hd)
+//@   heapnonnil
+//@   modifies everything
+
+//@ func (*CtrDrbg).Reseed property C17
+//@   let S := state()
+//@   ensures err == nil ==> hd.reseedCounter == 1
+//@   ensures err != nil ==> unchanged(S, *hd)
+//@   heapnonnil
+//@   modifies everything
+
+// ---- the reader wrapper: exactly len(data) bytes on success, chained in requests of at most
+// MaxBytesPerRequest, reseeding from the entropy source when the generator asks for it; any failure of
+// the source (error or short read) is reported. (Assumed of every DRBG: MaxBytesPerRequest > 0.)
+//@ func iface:github.com/emmansun/gmsm/drbg.DRBG.MaxBytesPerRequest trusted
+//@   ensures result > 0
+//@   modifies nothing
+// (a generator writes to its own state, which this wrapper cannot see, and to the output buffer)
+//@ func iface:github.com/emmansun/gmsm/drbg.DRBG.Generate trusted
+//@   modifies b[0..len(b)]
+//@ func iface:github.com/emmansun/gmsm/drbg.DRBG.Reseed trusted
+//@   modifies nothing
+
+//@ func (*DrbgPrng).getEntropy property C17
+//@   requires prng.entropySource != nil
+//@   ensures err == nil ==> ghost(rndpos, id(prng.entropySource)) == old(ghost(rndpos, id(prng.entropySource))) + len(entropyInput)
+//@   modifies entropyInput[0..len(entropyInput)], ghost(rndpos, id(prng.entropySource))
+
+//@ func (*DrbgPrng).Read property C17
+//@   requires prng.impl != nil && prng.entropySource != nil && prng.securityStrength >= 0
+//@   let L := len(data)
+//@   ensures err == nil ==> result0 == L
+//@   ensures err != nil ==> result0 == 0
+//@   loop 1 invariant 0 <= total && total + len(data) == L && maxBytesPerRequest > 0
+//@   heapnonnil
+//@   modifies everything
